@@ -21,6 +21,13 @@ class LemmaUnit:
             for name, hyps, goal in self.lemmas():
                 ob = Obligation("%s/lemma.%s" % (self.uid, name), "lemma", hyps, goal)
                 discharge(ob, timeout_s)
+                if hyps and ob.status == "proved":
+                    # vacuity guard: contradictory hypotheses would prove anything
+                    s = z3.Solver()
+                    s.set("timeout", 5000)
+                    s.add(*hyps)
+                    if s.check() == z3.unsat:
+                        raise RuntimeError("lemma %s: hypotheses are contradictory (vacuous)" % name)
                 d = ob.short()
                 d["model"], d["note"], d["kf"] = ob.model, ob.note, []
                 res.obligations.append(d)
